@@ -511,7 +511,8 @@ def describe(I, st, v, depth=0):
         return repr(v.s) if not isinstance(v.s, bytes) else repr(v.s)
     if isinstance(v, Seq):
         if "b64_of" in v.attrs:
-            return "b64(%s)" % describe(I, st, v.attrs["b64_of"], depth + 1)
+            eng = v.attrs.get("engine", "")
+            return "b64%s(%s)" % ("" if "URL_SAFE_NO_PAD" in eng else "[%s]" % eng, describe(I, st, v.attrs["b64_of"], depth + 1))
         if v.chunks is not None:
             out = []
             for c in v.chunks:
@@ -555,8 +556,7 @@ def str_eq(I, st, a, b):
     da, db = describe(I, st, a), describe(I, st, b)
     out = _str_eq(I, st, a, b)
     for s2, r in out:
-        if r:
-            s2.events.append(("equal", da, db))
+        s2.events.append(("equal" if r else "notequal", da, db))
     return out
 
 
@@ -1153,7 +1153,11 @@ def m_b64dec(I, st, info, args, depth):
     n = st.facts.get("ndec", 0)
     st.facts["ndec"] = n + 1
     name = "decoded%d" % n
-    return result_fork(I, st, Seq(name, Aff.sym("len(%s)" % name), kind="vec"), "base64::DecodeError", "base64 decode")
+    eng = repr(deref(I, st, args[0]))
+    what = describe(I, st, args[1])
+    out = result_fork(I, st, Seq(name, Aff.sym("len(%s)" % name), kind="vec", attrs={"decoded_of": what, "engine": eng}), "base64::DecodeError", "base64 decode")
+    out[1][0].events.append(("decodefail", what, eng))
+    return out
 
 
 @model(r"^hex::decode$")
@@ -1172,6 +1176,7 @@ def m_verify_slices(I, st, info, args, depth):
     da, db = describe(I, st, args[0]), describe(I, st, args[1])
     out = result_fork(I, st, UNIT, "ring::error::Unspecified", "constant-time compare")
     out[0][0].events.append(("equal", da, db))
+    out[1][0].events.append(("notequal", da, db))
     return out
 
 
